@@ -53,7 +53,7 @@ func isDoneChan(v ssa.Value) (ssa.Value, bool) {
 		return nil, false
 	}
 	com := c.Common()
-	if com.IsInvoke() && com.Method.Name() == "Done" && isContextType(com.Value.Type()) {
+	if com.IsInvoke() && methodName(com.Method) == "Done" && isContextType(com.Value.Type()) {
 		return com.Value, true
 	}
 	return nil, false
@@ -652,7 +652,7 @@ func ruleCONC3(w *World) []Ob {
 						}
 					}
 					if ci.Common().IsInvoke() && isContextType(ci.Common().Value.Type()) {
-						check(ci.Common().Value, "ctx."+ci.Common().Method.Name()+"()")
+						check(ci.Common().Value, "ctx."+methodName(ci.Common().Method)+"()")
 					}
 				})
 			}
@@ -701,7 +701,7 @@ func ruleCONC3(w *World) []Ob {
 						}
 					}
 					if ci.Common().IsInvoke() && isContextType(ci.Common().Value.Type()) {
-						check(ci.Common().Value, "ctx."+ci.Common().Method.Name()+"()")
+						check(ci.Common().Value, "ctx."+methodName(ci.Common().Method)+"()")
 					}
 				})
 			}
@@ -1355,6 +1355,28 @@ func ruleCONC6(w *World) []Ob {
 		l.bad("shared "+r.typ, "field "+r.field+" written by worker-reachable code", a.pos,
 			"state learnt while handling one root is visible to the workers handling other roots (written in "+strings.Join(dedupSorted(a.sites), ", ")+"): the result for a root can depend on which other roots were processed first", "learned")
 	}
+	// the Markdown parser learns the document's indentation from the lines it has seen; in simple mode one parser
+	// lives for the whole document.  A parser constructed per block / per worker learns it per root instead, so
+	// massive mode accepts (or rejects) documents that simple mode does not.
+	nParser := 0
+	for fn := range ca.mi.multi {
+		fn := fn
+		allInstrs(fn, func(in ssa.Instruction) {
+			c, ok := in.(*ssa.Call)
+			if !ok || c.Common().StaticCallee() == nil {
+				return
+			}
+			f := c.Common().StaticCallee()
+			if p.PkgPath(f) != modulePath+"/markdown" || f.Signature.Recv() != nil || f.Signature.Results().Len() != 1 || !isPointerToNamed(f.Signature.Results().At(0).Type(), modulePath+"/markdown", "Parser") {
+				return
+			}
+			nParser++
+			l.bad(p.FuncID(fn), "parser constructed once per document", p.InstrPos(c), "a Markdown parser is constructed in code that runs once per worker or per root block: each one learns the indentation unit, indent character and heading mode from its own block only, whereas simple mode keeps one parser for the whole document — the two modes then accept different documents", "parser-scope")
+		})
+	}
+	if nParser == 0 {
+		l.ok("-", "parser constructed once per document", "-", "no parser constructor call in worker-reachable code", false, "parser-scope")
+	}
 	if len(ca.mi.workers) == 0 {
 		l.undecided("-", "multi-instance workers", "-", "no goroutine started in a loop was found", "worker")
 	} else {
@@ -1469,6 +1491,80 @@ func ruleCONC5(w *World) []Ob {
 	}
 	if n == 0 {
 		l.undecided("-", "writer-reaching calls in multi-instance workers", "-", "no multi-instance worker reaches a write to the shared writer: the text spreader's workers were not found", "critical")
+	}
+	// every lock taken in library code is released on every way out of the function (explicit Unlock on each path, or a
+	// deferred one): a path that leaves with the lock held parks every other worker in Lock for good
+	for _, fn := range libFuncs(p) {
+		fn := fn
+		num := numbered{}
+		allInstrs(fn, func(in ssa.Instruction) {
+			ci, ok := in.(*ssa.Call)
+			if !ok {
+				return
+			}
+			_, isLock, ok := lockCallOn(ci)
+			if !ok || !isLock {
+				return
+			}
+			m := ci.Common().Args[0]
+			same := func(o ssa.Value) bool {
+				if o == m || sameVar(o, m) {
+					return true
+				}
+				fa, ok1 := m.(*ssa.FieldAddr)
+				fb, ok2 := o.(*ssa.FieldAddr)
+				return ok1 && ok2 && fa.Field == fb.Field && sameVar(fa.X, fb.X)
+			}
+			construct := num.name("release of " + calleeString(ci.Common()))
+			deferred := false
+			unlockBlocks := map[*ssa.BasicBlock]int{}
+			allInstrs(fn, func(in2 ssa.Instruction) {
+				switch x := in2.(type) {
+				case *ssa.Defer:
+					if _, lk, ok := lockCallOn(x); ok && !lk && same(x.Common().Args[0]) {
+						deferred = true
+					}
+				case *ssa.Call:
+					if _, lk, ok := lockCallOn(x); ok && !lk && same(x.Common().Args[0]) {
+						unlockBlocks[x.Block()] = instrIndex(x)
+					}
+				}
+			})
+			if deferred {
+				l.ok(p.FuncID(fn), construct, p.InstrPos(ci), "released by a deferred Unlock", true, "release")
+				return
+			}
+			// walk from the lock: a block with an Unlock (after the lock, if it is the lock's own block) closes the path
+			leak := ""
+			seen := map[*ssa.BasicBlock]bool{}
+			var walk func(b *ssa.BasicBlock, from int)
+			walk = func(b *ssa.BasicBlock, from int) {
+				if idx, has := unlockBlocks[b]; has && idx >= from {
+					return
+				}
+				if from == 0 {
+					if seen[b] {
+						return
+					}
+					seen[b] = true
+				}
+				if len(b.Succs) == 0 {
+					if _, isRet := b.Instrs[len(b.Instrs)-1].(*ssa.Return); isRet {
+						leak = p.InstrPos(b.Instrs[len(b.Instrs)-1])
+					}
+					return
+				}
+				for _, s := range b.Succs {
+					walk(s, 0)
+				}
+			}
+			walk(ci.Block(), instrIndex(ci)+1)
+			if leak != "" {
+				l.bad(p.FuncID(fn), construct, p.InstrPos(ci), "the function can return at "+leak+" with the lock still held (no Unlock on that path and none deferred): the other workers block in Lock forever and their goroutines never end", "release")
+			} else {
+				l.ok(p.FuncID(fn), construct, p.InstrPos(ci), "an Unlock lies on every path from the Lock to a return", true, "release")
+			}
+		})
 	}
 	return l.list
 }
